@@ -73,6 +73,12 @@ where
         // allow the request to pass
         true
     }
+
+    /// Verification hook: the keys currently tracked by the limiter.
+    #[cfg(passage_verif)]
+    pub fn verif_keys(&self) -> Vec<T> {
+        self.buckets.keys().copied().collect()
+    }
 }
 
 #[cfg(test)]
